@@ -76,3 +76,51 @@ Proof.
   - vm_compute. reflexivity.
   - vm_compute. auto.
 Qed.
+
+(* non-vacuity witnesses *)
+(* the instance (Proofs/C01Witness.v): w1_ct = Leaf, Pair, Sub (a subclass of Pair); digest tohex; six-node / four-level
+   trees w1_a, w1_b, w1_c (three objects, content-equal with a frozenset in three orders, same origins), w1_d (content-equal
+   to w1_a, other origins below the root), w1_e (other content) *)
+From Oak Require Import Proofs.C01Witness Proofs.C02Witness.
+(* C02_eq_of_ceq, C02_dfs_shape: both branches of the `if` *)
+Theorem C02_ex_eq_of_ceq :
+  v_stable current = true /\ wf_node w1_ct w1_a = true /\ wf_node w1_ct w1_b = true /\ wf_node w1_ct w1_d = true
+  /\ ceq w1_ct w1_a w1_b /\ ceq w1_ct w1_a w1_d /\ w1_a <> w1_b
+  /\ origins_eq w1_a w1_b = true /\ origins_eq w1_a w1_d = false
+  /\ eqn tohex w1_ct current w1_a w1_b = EqTrue /\ eqn tohex w1_ct current w1_a w1_d = EqFalse
+  /\ length (all_origins w1_a) = 6.
+Proof. exact w2_eq_of_ceq. Qed.
+(* C02_char, C02_total, C02_sym, C02_ne_negation: == True on (a, b); False on (a, d) and on (a, e) *)
+Theorem C02_ex_char :
+  digest_ok tohex /\ names_ok w1_ct
+  /\ good w1_ct ex_et w1_a /\ good w1_ct ex_et w1_b /\ good w1_ct ex_et w1_d /\ good w1_ct ex_et w1_e
+  /\ wf_node w1_ct w1_a = true /\ wf_node w1_ct w1_b = true /\ wf_node w1_ct w1_d = true /\ wf_node w1_ct w1_e = true
+  /\ eqn tohex w1_ct current w1_a w1_b = EqTrue /\ eqn tohex w1_ct current w1_b w1_a = EqTrue
+  /\ eqn tohex w1_ct current w1_a w1_d = EqFalse /\ eqn tohex w1_ct current w1_a w1_e = EqFalse
+  /\ neqn tohex w1_ct current w1_a w1_b = EqFalse /\ neqn tohex w1_ct current w1_a w1_e = EqTrue.
+Proof. exact w2_char. Qed.
+(* C02_trans: three different objects *)
+Theorem C02_ex_trans :
+  digest_ok tohex /\ names_ok w1_ct
+  /\ good w1_ct ex_et w1_a /\ good w1_ct ex_et w1_b /\ good w1_ct ex_et w1_c
+  /\ wf_node w1_ct w1_a = true /\ wf_node w1_ct w1_b = true /\ wf_node w1_ct w1_c = true
+  /\ eqn tohex w1_ct current w1_a w1_b = EqTrue /\ eqn tohex w1_ct current w1_b w1_c = EqTrue
+  /\ addr w1_a <> addr w1_b /\ addr w1_b <> addr w1_c /\ addr w1_a <> addr w1_c
+  /\ nprops w1_a <> nprops w1_b /\ nprops w1_b <> nprops w1_c.
+Proof. exact w2_trans. Qed.
+(* C02_refl, C02_stream_is_preorder *)
+Theorem C02_ex_refl : v_stable current = true /\ wf_node w1_ct w1_a = true
+  /\ eqn tohex w1_ct current w1_a w1_a = EqTrue
+  /\ option_map (@length origin) (stream_origins w1_ct w1_a) = Some 5
+  /\ all_origins w1_a = [w1_o1; w1_o2; ONo; w1_o2; w1_o2; ONo].
+Proof. exact w2_refl. Qed.
+(* C02_other_class_false: a Sub node against the Pair node stored in its tuple field *)
+Theorem C02_ex_other_class : cls w1_a <> cls (w1_pair 3 w1_o2 "first")
+  /\ In (w1_pair 3 w1_o2 "first") (snd (snd (nth 2 (nkids w1_a) (lit "", (ShNone, []))))).
+Proof. exact w2_other_class. Qed.
+(* C02_origin_eq_equiv (transitivity): three different origin values that are pairwise == *)
+Theorem C02_ex_origin_trans :
+  origin_eqb (w2_om None) (w2_om (Some (lit "a"))) = true /\ origin_eqb (w2_om (Some (lit "a"))) (w2_om (Some (lit "b"))) = true
+  /\ w2_om None <> w2_om (Some (lit "a")) /\ w2_om (Some (lit "a")) <> w2_om (Some (lit "b"))
+  /\ origin_eqb (w2_om None) w1_o1 = false.
+Proof. exact w2_origin_trans. Qed.
